@@ -35,7 +35,7 @@ func (u *Unit) execBlock(fn *ssa.Function, n *node, st *State) *retInfo {
 			for i, r := range x.Results {
 				vals[i] = u.val(st, r)
 			}
-			return &retInfo{st: st, vals: vals, pos: x.Pos(), blk: n.b.Index}
+			return &retInfo{st: st, vals: vals, pos: x.Pos(), blk: n.b.Index, node: n.seen}
 		case *ssa.Panic:
 			u.safety(st, "panic", "false", x.Pos())
 			st.dead = true
